@@ -268,7 +268,7 @@ func inRange(ip net.IP, CIDRs []string) bool {
 		cidr := CIDRs[i]
 		_, network, err := net.ParseCIDR(cidr)
 		if err != nil {
-			return false
+			continue
 		}
 		if network.Contains(ip) {
 			return true
